@@ -302,8 +302,13 @@ func (c *checker) base(t *Term, a Val, pos int, parent int) int {
 					return pos
 				}
 				if pos >= floating {
-					c.fail("separator after error stretch unsupported")
-					return pos
+					// after an error stretch: anchor on the next element
+					f := c.firstOf(e)
+					if f < 0 || f == 0 {
+						pos = c.base(t.Elem, e, pos, parent)
+						continue
+					}
+					pos = f - 1
 				}
 				if pos >= len(c.toks) || c.toks[pos] != t.Sep.ID {
 					c.fail("action %d: separator expected at %d", parent, pos)
@@ -458,6 +463,17 @@ func (c *checker) run(root int) {
 	}
 	if end != len(c.toks) {
 		c.fail("tree covers %d of %d tokens", end, len(c.toks))
+		return
+	}
+	if c.withE {
+		// results of actions inside a stretch replaced by @error are dropped;
+		// the others must still have run in post-order
+		for i := 1; i < len(c.order); i++ {
+			if c.order[i-1] >= c.order[i] {
+				c.fail("actions did not run bottom-up left-to-right: call %d before call %d", c.order[i-1], c.order[i])
+				return
+			}
+		}
 		return
 	}
 	for id, u := range c.used {
